@@ -26,13 +26,19 @@
 (*   Launch          asynchronous: the results of the current selected     *)
 (*                   value are left to a process                           *)
 (*   DoneSel, EndInput, Finish                                             *)
+(*   EndFirstRun / StartSecond / Abort   the same element object is run a  *)
+(*                   second time (after the first run ended, or after the  *)
+(*                   input raised): processes started in the first run are *)
+(*                   waited for at its end - or are still in the pool      *)
 (* Declarative part: Expected = the input with every selected value        *)
 (* replaced by its reference results (run(interleave(A,B)) =               *)
 (* interleave(run(A), B)).                                                 *)
 (***************************************************************************)
 EXTENDS Naturals, Sequences, FiniteSets, TLC, Json
 
-CONSTANTS MaxA, MaxB, MaxFan, AsyncModes
+CONSTANTS MaxA, MaxB, MaxFan, AsyncModes,
+          Repeats,     \* TRUE: the same unselected object may occur twice in the flow
+          Cuts         \* TRUE: the flow may be fed in two runs of the same element (second run after the first ended or was aborted)
 
 U(i) == [k |-> "u", i |-> i]        \* the i-th unselected value itself
 S(r) == [k |-> "s", i |-> r]        \* the r-th reference result
@@ -48,71 +54,96 @@ RECURSIVE OwnOf(_, _)
 OwnOf(f, k) == IF k > Len(f) THEN <<>> ELSE [j \in 1..f[k] |-> k] \o OwnOf(f, k + 1)
 
 VARIABLES pat, fan, own, async,     \* scenario
+          xs,                       \* scenario, extras: [bobj, cut, kind]
+                                    \*   bobj[k] = index of the first unselected position holding the same OBJECT as
+                                    \*             the k-th one (k itself unless the object is repeated)
+                                    \*   cut     = 0, or the number of values fed in a first run of the same element
+                                    \*   kind    = "end" (the first run is exhausted) | "abort" (the input raised)
           pos, na, nb,              \* consumed so far: values, selected, unselected
           j,                        \* results emitted for the current selected value
-          out, pending, fs, phase
-vars == <<pat, fan, own, async, pos, na, nb, j, out, pending, fs, phase>>
+          out, pending, fs, phase, cutdone
+vars == <<pat, fan, own, async, xs, pos, na, nb, j, out, pending, fs, phase, cutdone>>
 
 NRef == Len(own)
 ResOf(k) == {r \in 1..NRef : own[r] = k}
 Min(X) == CHOOSE x \in X : \A y \in X : x <= y
 Emitted == {out[i].i : i \in {x \in 1..Len(out) : out[x].k = "s"}}
 
-InitWith(p, f, o, a) ==
-    /\ pat = p /\ fan = f /\ own = o /\ async = a
+IdObj(n) == [k \in 1..n |-> k]
+\* identity, or exactly one object occurring at two unselected positions
+BObjs(n) == {IdObj(n)} \cup (IF Repeats THEN {[IdObj(n) EXCEPT ![k] = i] : i \in 1..n, k \in 1..n} \ {[k \in 1..n |-> 0]} ELSE {})
+GoodObj(b) == \A k \in 1..Len(b) : b[k] <= k /\ b[b[k]] = b[k]
+XSets(p) == [bobj : {b \in BObjs(Count(p, FALSE)) : GoodObj(b)},
+             cut : {0} \cup (IF Cuts THEN 1..(Len(p) - 1) ELSE {}), kind : {"end", "abort"}]
+InitWith(p, f, o, a, x) ==
+    /\ pat = p /\ fan = f /\ own = o /\ async = a /\ xs = x
     /\ pos = 0 /\ na = 0 /\ nb = 0 /\ j = 0
-    /\ out = <<>> /\ pending = {} /\ fs = {} /\ phase = "idle"
+    /\ out = <<>> /\ pending = {} /\ fs = {} /\ phase = "idle" /\ cutdone = FALSE
 Init == \E p \in AllPats : \E f \in [1..Count(p, TRUE) -> 0..MaxFan] : \E a \in AsyncModes :
-            InitWith(p, f, OwnOf(f, 1), a)
+        \E x \in {y \in XSets(p) : y.cut # 0 \/ y.kind = "end"} :
+            InitWith(p, f, OwnOf(f, 1), a, x)
 
-Consume == /\ phase = "idle" /\ pos < Len(pat)
+AtCut == xs.cut # 0 /\ pos = xs.cut /\ ~cutdone
+Consume == /\ phase = "idle" /\ pos < Len(pat) /\ ~AtCut
            /\ pos' = pos + 1
            /\ IF pat[pos + 1] THEN /\ na' = na + 1 /\ nb' = nb /\ phase' = (IF async THEN "polls" ELSE "sel")
                               ELSE /\ nb' = nb + 1 /\ na' = na /\ phase' = (IF async THEN "pollu" ELSE "unsel")
            /\ j' = 0
-           /\ UNCHANGED <<pat, fan, own, async, out, pending, fs>>
+           /\ UNCHANGED <<pat, fan, own, async, xs, out, pending, fs, cutdone>>
 
 \* results of earlier selected values whose process has terminated
-Flush(r) == /\ phase \in {"polls", "pollu", "drain"} /\ r \in pending
+Flush(r) == /\ phase \in {"polls", "pollu", "drain", "drain1"} /\ r \in pending
             /\ out' = Append(out, S(r))
             /\ pending' = pending \ {r}
-            /\ UNCHANGED <<pat, fan, own, async, pos, na, nb, j, fs, phase>>
+            /\ UNCHANGED <<pat, fan, own, async, xs, pos, na, nb, j, fs, phase, cutdone>>
 PollDone == /\ phase \in {"polls", "pollu"}
             /\ phase' = (IF phase = "polls" THEN "sel" ELSE "unsel")
-            /\ UNCHANGED <<pat, fan, own, async, pos, na, nb, j, out, pending, fs>>
+            /\ UNCHANGED <<pat, fan, own, async, xs, pos, na, nb, j, out, pending, fs, cutdone>>
 
 PassUnselected == /\ phase = "unsel"
-                  /\ out' = Append(out, U(nb))
+                  /\ out' = Append(out, U(xs.bobj[nb]))        \* the object itself (it may have passed before)
                   /\ phase' = "idle"
-                  /\ UNCHANGED <<pat, fan, own, async, pos, na, nb, j, pending, fs>>
+                  /\ UNCHANGED <<pat, fan, own, async, xs, pos, na, nb, j, pending, fs, cutdone>>
 
 Todo == {r \in ResOf(na) : r \notin Emitted /\ r \notin pending}
 EmitSel == /\ phase = "sel" /\ Todo # {}
            /\ out' = Append(out, S(Min(Todo)))
            /\ j' = j + 1
-           /\ UNCHANGED <<pat, fan, own, async, pos, na, nb, pending, fs, phase>>
+           /\ UNCHANGED <<pat, fan, own, async, xs, pos, na, nb, pending, fs, phase, cutdone>>
 FsSel == /\ phase = "sel"
          /\ fs' = fs \cup {pos}
-         /\ UNCHANGED <<pat, fan, own, async, pos, na, nb, j, out, pending, phase>>
+         /\ UNCHANGED <<pat, fan, own, async, xs, pos, na, nb, j, out, pending, phase, cutdone>>
 Launch == /\ phase = "sel" /\ async /\ j = 0 /\ Todo # {}
           /\ pending' = pending \cup Todo
           /\ fs' = fs \cup {pos}          \* a process is started
           /\ phase' = "idle"
-          /\ UNCHANGED <<pat, fan, own, async, pos, na, nb, j, out>>
+          /\ UNCHANGED <<pat, fan, own, async, xs, pos, na, nb, j, out, cutdone>>
 DoneSel == /\ phase = "sel" /\ Todo = {}
            /\ phase' = "idle"
-           /\ UNCHANGED <<pat, fan, own, async, pos, na, nb, j, out, pending, fs>>
+           /\ UNCHANGED <<pat, fan, own, async, xs, pos, na, nb, j, out, pending, fs, cutdone>>
 
 EndInput == /\ phase = "idle" /\ pos = Len(pat)
             /\ phase' = "drain"
-            /\ UNCHANGED <<pat, fan, own, async, pos, na, nb, j, out, pending, fs>>
+            /\ UNCHANGED <<pat, fan, own, async, xs, pos, na, nb, j, out, pending, fs, cutdone>>
 Finish == /\ phase = "drain" /\ pending = {}
           /\ phase' = "done"
-          /\ UNCHANGED <<pat, fan, own, async, pos, na, nb, j, out, pending, fs>>
+          /\ UNCHANGED <<pat, fan, own, async, xs, pos, na, nb, j, out, pending, fs, cutdone>>
+
+\* two runs of one element object: the first run ends normally (its processes are waited for) ...
+EndFirstRun == /\ phase = "idle" /\ AtCut /\ xs.kind = "end"
+               /\ phase' = "drain1"
+               /\ UNCHANGED <<pat, fan, own, async, xs, pos, na, nb, j, out, pending, fs, cutdone>>
+StartSecond == /\ phase = "drain1" /\ pending = {}
+               /\ phase' = "idle" /\ cutdone' = TRUE
+               /\ UNCHANGED <<pat, fan, own, async, xs, pos, na, nb, j, out, pending, fs>>
+\* ... or the input raises while the element asks for the next value: nothing is drained, run() is called again
+Abort == /\ phase = "idle" /\ AtCut /\ xs.kind = "abort"
+         /\ cutdone' = TRUE
+         /\ UNCHANGED <<pat, fan, own, async, xs, pos, na, nb, j, out, pending, fs, phase>>
 
 FlushAny == \E r \in 1..NRef : Flush(r)
 Next == Consume \/ FlushAny \/ PollDone \/ PassUnselected \/ EmitSel \/ FsSel \/ Launch
-        \/ DoneSel \/ EndInput \/ Finish
+        \/ DoneSel \/ EndInput \/ Finish \/ EndFirstRun \/ StartSecond \/ Abort
 Spec == Init /\ [][Next]_vars
 
 (***************************************************************************)
@@ -126,8 +157,8 @@ Iota(n) == [i \in 1..n |-> i]
 
 \* every unselected value consumed so far has been yielded: itself, once, in order - and immediately
 UnselIdentityOrder ==
-    /\ Proj("u") = Iota(IF phase \in {"unsel", "pollu"} THEN nb - 1 ELSE nb)
-    /\ phase = "done" => Proj("u") = Iota(Count(pat, FALSE))
+    /\ Proj("u") = SubSeq(xs.bobj, 1, IF phase \in {"unsel", "pollu"} THEN nb - 1 ELSE nb)
+    /\ phase = "done" => Proj("u") = xs.bobj
 
 \* the results for the selected values are the reference results: each exactly once; in the reference
 \* order unless the element is asynchronous; nothing is yielded for a selected value not yet read
@@ -144,7 +175,7 @@ RECURSIVE Expected(_, _, _)
 Expected(p, ia, ib) ==
     IF p = <<>> THEN <<>>
     ELSE IF Head(p) THEN [x \in 1..fan[ia] |-> S(Min(ResOf(ia)) + x - 1)] \o Expected(Tail(p), ia + 1, ib)
-         ELSE <<U(ib)>> \o Expected(Tail(p), ia, ib + 1)
+         ELSE <<U(xs.bobj[ib])>> \o Expected(Tail(p), ia, ib + 1)
 \* run(interleave(A, B)) = interleave(run(A), B)
 Metamorphic == (phase = "done" /\ ~async) => out = Expected(pat, 1, 1)
 
@@ -153,5 +184,6 @@ TypeOK == /\ pos \in 0..Len(pat) /\ na = Count(SubSeq(pat, 1, pos), TRUE) /\ nb 
           /\ (~async => pending = {})
 
 \* export of the expected output layout for every interleaving and fan-out (S2C)
-Emitted_ == phase = "done" => PrintT(ToJson([pat |-> pat, fan |-> fan, own |-> own, out |-> out]))
+Emitted_ == phase = "done" => PrintT(ToJson([pat |-> pat, fan |-> fan, own |-> own, out |-> out, bobj |-> xs.bobj,
+                                                  cut |-> xs.cut, kind |-> xs.kind]))
 =============================================================================
